@@ -542,6 +542,33 @@ func (h *harness) compressFails(req *plugin.Request) (bool, string) {
 	if d := h.sc.FirstDiff(ty, h.sc.Normalize(ty, before, false), h.sc.Normalize(ty, dv, false), "$"); d != "" {
 		return true, "request decoded from compressed bytes differs from built at " + d
 	}
+	// sharing, checked by filename: after decompression every occurrence of a file is one node
+	byName := map[string]*parser.Thrift{}
+	shared := ""
+	var walk func(t *parser.Thrift, depth int)
+	walk = func(t *parser.Thrift, depth int) {
+		if t == nil || depth > 64 || shared != "" {
+			return
+		}
+		for _, inc := range t.Includes {
+			if inc.Reference == nil {
+				continue
+			}
+			if p, ok := byName[inc.Reference.Filename]; ok {
+				if p != inc.Reference {
+					shared = inc.Reference.Filename
+					return
+				}
+				continue // seen through another path
+			}
+			byName[inc.Reference.Filename] = inc.Reference
+			walk(inc.Reference, depth+1)
+		}
+	}
+	walk(dec.AST, 0)
+	if shared != "" {
+		return true, "decompressed request holds two different nodes for file " + shared
+	}
 	if !plugin.VerifHasDataTrailerFeature(dataT, plugin.VerifFeatureCompressInclude) {
 		return true, "trailer not detected on compressed request"
 	}
